@@ -110,14 +110,25 @@ pub fn read_facts_and_rules(file_name: &str) -> Result<Vec<String>, String> {
                     if line.len() > 0 {
                         match check_last_char(&line, line_number) {
                             Some(msg) => { return Err(msg); },
-                            None => { long_line += &line; },
+                            None => {
+                                // Lines are trimmed. Keep them apart, so that
+                                // the words of two lines do not run together.
+                                if long_line.len() > 0 { long_line.push(' '); }
+                                long_line += &line;
+                            },
                         }
                         rules.push(line);
                     }
                 }
                 line_number += 1;
             }
-            separate_rules(&long_line)
+            match separate_rules(&long_line) {
+                Ok(rules) => {
+                    // Remove the space which separates a rule from the previous one.
+                    Ok(rules.iter().map(|r| r.trim().to_string()).collect())
+                },
+                Err(msg) => Err(msg),
+            }
         },
         Err(msg) => {
             // Add file name to error message.
@@ -316,7 +327,7 @@ fn unmatched_bracket(error_line: &str,
     else if square_depth < 0 { msg = "Unmatched bracket: ]"; }
     let msg = msg.to_string();
 
-    let chrs = str_to_chars!(error_line);
+    let chrs = str_to_chars!(error_line.trim_start());
 
     if chrs.len() == 0 {
         msg2 = "Check start of file.".to_string();
